@@ -1070,7 +1070,7 @@ def run(ctx):
                        'iteration order of the Python sets file_dep / calc_dep is an input (read off the real Task objects)',
                        'per-task arguments: which tokens are consumed (pos_arg, option tokens in exact spelling -c / --word, str values) is '
                        'modelled; the parsed VALUES, option clusters, --opt=value, "--" and "-" are not',
-                       'C12_serial_order is not proved; the start order of selected tasks is checked on the real runs of Part B only',
+                       'C12_serial_order / C12_nothing_outside_closure_serial are proved over the dispatcher + serial runner model with a STATIC task table (Model/Dispatch.v, Runner.v; tied to the code by the correspondence checks of C01/C02/C09); on real runs (delayed creators included) the start order of the selected tasks and the closure are checked by the oracle of Part B',
                        'the run after a delayed creator executed (tasks replaced by the created ones) is covered by Part B only, not by the model']
     out.extra['trusted_base'] = ['rendering of real Task attributes into Model/Select.v tables and of exceptions into the error enum (harness/c12.py)',
                                  'the closure oracle of Part B (harness/c12.py oracle_b)']
